@@ -357,7 +357,7 @@ open MythVerif.Wsq (Elem Pid Holder retOpt)
 /-! ## x86-TSO machine: bounded exhaustive search with the fence positions as a parameter -/
 
 inductive Cmd where
-  | push (e : Elem) | pop | take | put (e : Elem) | pass (e : Elem) | peek
+  | push (e : Elem) | pop | take | put (e : Elem) | pass (e : Elem) | peek | wtake | wpeek | clear
   deriving Repr
 
 structure Cfg where
@@ -365,14 +365,16 @@ structure Cfg where
   oscr : List Cmd            -- owner's remaining script
   tscr : List (List Cmd)     -- remaining scripts of participants 0..k-1
 
+def optKey (x : Option Elem) : List Int := [(x.getD 0 : Nat), if x.isSome then 1 else 0]
+
 def stoKey : Sto → List Int
   | .top v => [1, v]
   | .base v => [2, v]
   | .ptr i x => [3, i, (x.getD 0 : Nat), if x.isSome then 1 else 0]
   | .unlock => [4]
   | .baseI v e => [5, v, e]
-
-def optKey (x : Option Elem) : List Int := [(x.getD 0 : Nat), if x.isSome then 1 else 0]
+  | .shift lo hi off => [6, lo, hi, off]
+  | .cache x => 7 :: optKey x
 
 def opcKey : OPc → List Int
   | .idle => [0] | .stuck => [1] | .pu0 e => [2, e] | .pu0f e t => [3, e, t] | .pu1 e t => [4, e, t]
@@ -381,6 +383,11 @@ def opcKey : OPc → List Int
   | .po5b t r => [14, t] ++ optKey r | .po6 r => 15 :: optKey r | .po7 => [16] | .po8 => [17] | .po9 => [18]
   | .stuckL => [19] | .ptl e => [20, e] | .pt1 e => [21, e] | .pt6 e => [22, e] | .pt7 e b => [23, e, b]
   | .pt8 e b => [24, e, b] | .pt9 => [25]
+  | .pul e => [26, e] | .pub e => [27, e] | .pum e off => [28, e, off] | .pus e off => [29, e, off]
+  | .puv e off => [30, e, off] | .pux e t => [31, e, t] | .pt2 e => [32, e] | .pt3 e off => [33, e, off]
+  | .pt4 e off => [34, e, off] | .pt5 e off => [35, e, off]
+  | .po5c t r => [36, t] ++ optKey r | .po5d r => 37 :: optKey r
+  | .assertFail => [38] | .cll => [39] | .cl1 => [40] | .cl2 => [41] | .cl3 => [42]
 
 def tpcKey : TPc → List Int
   | .idle => [0] | .tq0 => [1] | .tq1 t => [2, t] | .tkl => [3] | .tk1 => [4] | .tkf b => [5, b]
@@ -388,19 +395,24 @@ def tpcKey : TPc → List Int
   | .tpl e => [11, e] | .tp1 e => [12, e] | .tp1b e => [13, e] | .tp2 e b => [14, e, b] | .tp3 e => [15, e]
   | .tp4 ok => [16, if ok then 1 else 0]
   | .kq0 => [17] | .kq1 t => [18, t] | .pk1 => [19] | .pk2 b => [20, b] | .pk3 b => [21, b]
+  | .wq0 => [22] | .wq1 t => [23, t] | .wtl => [24] | .wk1 => [25] | .wkf b => [26, b] | .wk2 b => [27, b]
+  | .wk3 b => [28, b] | .wkd b r => [29, b] ++ optKey r | .wk4 r => 30 :: optKey r | .wk4u r => 31 :: optKey r
+  | .wk5 b => [32, b] | .wk6 => [33]
+  | .vq0 => [34] | .vq1 t => [35, t] | .vc0 => [36] | .vl => [37] | .vc1 => [38] | .vk1 => [39] | .vkf b => [40, b]
+  | .vk2 b => [41, b] | .vk3 b => [42, b] | .vk4 b r => [43, b] ++ optKey r | .vk5 b => [44, b] | .vu => [45] | .vr => [46]
 
 def lockKey : Holder → Int
   | .free => 0 | .owner => 1 | .thief p => 2 + p
 
 def cmdKey : Cmd → Int
-  | .push e => 100 + 3 * e | .pop => 1 | .take => 2 | .put e => 101 + 3 * e | .pass e => 102 + 3 * e | .peek => 3
+  | .push e => 100 + 3 * e | .pop => 1 | .take => 2 | .put e => 101 + 3 * e | .pass e => 102 + 3 * e | .peek => 3 | .wtake => 4 | .wpeek => 5 | .clear => 6
 
 /-- canonical key of the concrete part of a configuration (slots `0..size-1`, `k` participants) -/
 def Cfg.key (c : Cfg) : List Int :=
   let s := c.s
   let n := s.size.toNat
   let k := c.tscr.length
-  [s.top, s.base, lockKey s.lock] ++
+  [s.top, s.base, lockKey s.lock] ++ optKey s.cache ++
   ((List.range n).map (fun (i : Nat) => optKey (s.ptr (i : Int)))).flatten ++ [-1] ++
   (s.bufO.map stoKey).flatten ++ [-2] ++ opcKey s.opc ++ [-3] ++
   ((List.range k).map (fun p => (s.bufT p).map stoKey |>.flatten |>.append (-4 :: tpcKey (s.tpc p)))).flatten ++ [-5] ++
@@ -408,8 +420,10 @@ def Cfg.key (c : Cfg) : List Int :=
   (c.tscr.map (fun l => l.map cmdKey ++ [-8])).flatten
 
 def showLbl : Lbl → String
-  | .oPush e => s!"owner:call-push({e})" | .oPop => "owner:call-pop" | .oPut e => s!"owner:call-put({e})" | .o => "owner:step" | .flushO => "owner:FLUSH"
-  | .tTake p => s!"thief{p}:call-take" | .tPass p e => s!"thief{p}:call-trypass({e})" | .tPeek p => s!"thief{p}:call-peek" | .t p => s!"thief{p}:step" | .flushT p => s!"thief{p}:FLUSH"
+  | .oPush e => s!"owner:call-push({e})" | .oPop => "owner:call-pop" | .oPut e => s!"owner:call-put({e})" | .oClear => "owner:call-clear" | .o => "owner:step" | .flushO => "owner:FLUSH"
+  | .tTake p => s!"thief{p}:call-take" | .tPass p e => s!"thief{p}:call-trypass({e})" | .tPeek p => s!"thief{p}:call-peek"
+  | .tWTake p => s!"thief{p}:call-wsapi-take" | .tWPeek p => s!"thief{p}:call-wsapi-peek"
+  | .tDecide p a => s!"thief{p}:decide({a})" | .t p => s!"thief{p}:step" | .flushT p => s!"thief{p}:FLUSH"
 
 /-- successors: (label, configuration) -/
 def Cfg.succ (c : Cfg) : List (Lbl × Cfg) :=
@@ -420,6 +434,7 @@ def Cfg.succ (c : Cfg) : List (Lbl × Cfg) :=
       (match c.oscr with
        | .push e :: rest => (match step s (.oPush e) with | some s' => [(.oPush e, { c with s := s', oscr := rest })] | none => [])
        | .pop :: rest => (match step s .oPop with | some s' => [(.oPop, { c with s := s', oscr := rest })] | none => [])
+       | .clear :: rest => (match step s .oClear with | some s' => [(.oClear, { c with s := s', oscr := rest })] | none => [])
        | .put e :: rest => (match step s (.oPut e) with | some s' => [(.oPut e, { c with s := s', oscr := rest })] | none => [])
        | _ => [])
     | _ => (match step s .o with | some s' => [(.o, { c with s := s' })] | none => [])
@@ -431,11 +446,17 @@ def Cfg.succ (c : Cfg) : List (Lbl × Cfg) :=
         (match c.tscr[p]? with
          | some (.take :: rest) =>
            (match step s (.tTake p) with | some s' => [(.tTake p, { c with s := s', tscr := c.tscr.set p rest })] | none => [])
+         | some (.wtake :: rest) =>
+           (match step s (.tWTake p) with | some s' => [(.tWTake p, { c with s := s', tscr := c.tscr.set p rest })] | none => [])
+         | some (.wpeek :: rest) =>
+           (match step s (.tWPeek p) with | some s' => [(.tWPeek p, { c with s := s', tscr := c.tscr.set p rest })] | none => [])
          | some (.peek :: rest) =>
            (match step s (.tPeek p) with | some s' => [(.tPeek p, { c with s := s', tscr := c.tscr.set p rest })] | none => [])
          | some (.pass e :: rest) =>
            (match step s (.tPass p e) with | some s' => [(.tPass p e, { c with s := s', tscr := c.tscr.set p rest })] | none => [])
          | _ => [])
+      | .wkd _ _ =>      -- the decision callback: both verdicts are explored
+        [true, false].filterMap fun a => (step s (.tDecide p a)).map fun s' => (Lbl.tDecide p a, { c with s := s' })
       | _ => (match step s (.t p) with | some s' => [(.t p, { c with s := s' })] | none => [])
     let fl : List (Lbl × Cfg) := match step s (.flushT p) with | some s' => [(.flushT p, { c with s := s' })] | none => []
     run ++ fl).flatten
@@ -445,7 +466,7 @@ def Cfg.succ (c : Cfg) : List (Lbl × Cfg) :=
     visited set.  Terminal = no successor except self-loops. -/
 def Cfg.done (c : Cfg) : Bool :=
   c.oscr.isEmpty && c.tscr.all (·.isEmpty) &&
-  (match c.s.opc with | .idle => true | .stuck => true | .stuckL => true | _ => false) &&
+  (match c.s.opc with | .idle => true | .stuck => true | .stuckL => true | .assertFail => true | _ => false) &&
   (List.range c.tscr.length).all (fun p => match c.s.tpc p with | .idle => true | _ => false) &&
   c.s.bufO.isEmpty && (List.range c.tscr.length).all (fun p => (c.s.bufT p).isEmpty)
 
@@ -486,21 +507,24 @@ partial def dfs (limit : Nat) (c : Cfg) (path : List Lbl) (st : Search) : Search
 def parseCmds (w : String) : List Cmd :=
   (w.splitOn ",").filterMap fun x =>
     if x == "pop" then some Cmd.pop
+    else if x == "clear" then some Cmd.clear
     else if x == "take" then some Cmd.take
     else if x == "peek" then some Cmd.peek
+    else if x == "wtake" then some Cmd.wtake
+    else if x == "wpeek" then some Cmd.wpeek
     else if x.startsWith "push" then (x.drop 4).toNat?.map Cmd.push
     else if x.startsWith "put" then (x.drop 3).toNat?.map Cmd.put
     else if x.startsWith "pass" then (x.drop 4).toNat?.map Cmd.pass
     else none
 
 def parseCfg (w : String) : FenceCfg :=
-  -- four characters 0/1: pushRb popFence takeFence unlockFence
+  -- up to six characters 0/1: pushRb popFence takeFence unlockFence wtakeFence wpeekFence (missing = 1)
   let b (i : Nat) : Bool := (w.toList.getD i '1') == '1'
-  ⟨b 0, b 1, b 2, b 3⟩
+  ⟨b 0, b 1, b 2, b 3, b 4, b 5⟩
 
 /-- `drv_wsq tso <size> <fences> <limit> <ownerscript> <thiefscript>*`
-    e.g. `tso 4 1011 200000 push1,pop take`; owner commands `pushN`, `pop`, `putN`, participant
-    commands `take`, `peek`, `passN` (one `myth_queue_trypass`; a failed trylock returns without inserting) -/
+    e.g. `tso 4 1011 200000 push1,pop take`; owner commands `pushN`, `pop`, `putN`, `clear`, participant
+    commands `take`, `peek`, `wtake` (both verdicts of the callback are explored), `wpeek`, `passN` (one `myth_queue_trypass`; a failed trylock returns without inserting) -/
 def runCli (args : List String) : IO UInt32 := do
   match args with
   | size :: fences :: limit :: oscr :: tscrs =>
